@@ -199,7 +199,7 @@ func seqCase(c *driver.Ctx, d *doc, pair [2]string, hist []op, hs string, crash 
 	if n := leftovers(path); n > 0 {
 		c.Count("leftover_files_after_success", int64(n))
 	}
-	if f := reopenCheck(path, m, []string{pair[0], pair[1], "h", "other.io"}); f != nil {
+	if f := reopenCheck(path, m, []string{pair[0], pair[1], "h", "other.io"}, st); f != nil {
 		return f
 	}
 	if legacy {
